@@ -31,37 +31,45 @@ const vPayloadSamples = 5
 type vBody struct {
 	data    string
 	cuts    []int // chunk boundaries (ascending offsets); the rest is delivered in one last chunk
-	failAt  int   // after this many delivered chunks the next Read fails (-1: never)
+	failOff int   // the read after this many delivered bytes fails (-1: never)
+	reset   bool  // the failure is "connection reset by peer" (otherwise a time-out)
 	eofWith bool  // the last chunk is returned together with io.EOF
-	nRead   int
 	off     int
 	closed  bool
 	failed  bool // a Read returned the connection error
 	sawEOF  bool // a Read returned io.EOF
 }
 
-var vErrBody = zzv.Err("connection reset by peer")
+var vErrReset = zzv.Err("read tcp 10.0.0.1:1->10.0.0.2:2: read: connection reset by peer")
+var vErrTimeout = zzv.Err("context deadline exceeded (Client.Timeout or context cancellation while reading body)")
 
 func (b *vBody) Read(p []byte) (int, error) {
-	if b.failAt >= 0 && b.nRead == b.failAt {
+	if b.failOff >= 0 && b.off >= b.failOff {
 		b.failed = true
-		return 0, vErrBody
+		if b.reset {
+			return 0, vErrReset
+		}
+		return 0, vErrTimeout
 	}
 	if b.off >= len(b.data) {
 		b.sawEOF = true
 		return 0, io.EOF
 	}
 	end := len(b.data)
-	if b.nRead < len(b.cuts) && b.cuts[b.nRead] > b.off && b.cuts[b.nRead] < end {
-		end = b.cuts[b.nRead]
+	for _, c := range b.cuts {
+		if c > b.off && c < end {
+			end = c
+		}
+	}
+	if b.failOff > b.off && b.failOff < end {
+		end = b.failOff
 	}
 	if end-b.off > len(p) {
 		end = b.off + len(p)
 	}
 	n := copy(p, b.data[b.off:end])
 	b.off += n
-	b.nRead++
-	if b.off >= len(b.data) && b.eofWith {
+	if b.off >= len(b.data) && b.eofWith && b.failOff < 0 {
 		b.sawEOF = true
 		return n, io.EOF
 	}
@@ -117,16 +125,17 @@ func vGetGzipReader(r io.Reader) (*gzip.Reader, error) {
 func vPutGzipReader(z *gzip.Reader)                    {}
 func vGzipRead(z *gzip.Reader, p []byte) (int, error) { return vCur.body.Read(p) }
 
-// vParseStream is the contract model of VictoriaMetrics' ParseStream: read until the reader
-// reports an error; EOF = success and the callback gets the rows of everything read; any other
-// error is returned.
+// vParseStream is the contract model of VictoriaMetrics' ParseStream (v1.71.0): read until the
+// reader reports an error; an EOF-like error = success and the callback gets the rows of
+// everything read; any other error is returned. "EOF-like" is io.EOF or, as in the library's
+// isEOFLikeError, any error whose text contains "reset by peer".
 func vParseStream(r io.Reader, defaultTimestamp int64, isGzipped bool, callback func(rows []parser.Row) error, errLogger func(string)) error {
 	var all []byte
 	buf := make([]byte, 16)
 	for i := 0; i < 64; i++ {
 		n, err := r.Read(buf)
 		all = append(all, buf[:n]...)
-		if err == io.EOF {
+		if err == io.EOF || (err != nil && vContains(err.Error(), "reset by peer")) {
 			return callback(vRows(string(all)))
 		}
 		if err != nil {
@@ -134,6 +143,15 @@ func vParseStream(r io.Reader, defaultTimestamp int64, isGzipped bool, callback 
 		}
 	}
 	return zzv.Err("reader never ended")
+}
+
+func vContains(s, sub string) bool {
+	for i := 0; i+len(sub) <= len(s); i++ {
+		if s[i:i+len(sub)] == sub {
+			return true
+		}
+	}
+	return false
 }
 
 func vRows(text string) []parser.Row {
@@ -167,7 +185,7 @@ type vWriter struct {
 	status      int // committed status (0: nothing sent yet)
 	body        []byte
 	ctypeAtSend string
-	writeFailAt int // Write number (1-based) that fails; 0: never
+	failAfter   int // Prometheus' connection breaks after accepting this many body bytes (-1: never)
 	broken      bool
 	nWrites     int
 	shortWrites int
@@ -185,12 +203,14 @@ func (w *vWriter) WriteHeader(code int) {
 }
 func (w *vWriter) Write(p []byte) (int, error) {
 	w.nWrites++
-	if w.writeFailAt != 0 && w.nWrites == w.writeFailAt {
-		w.broken = true
-		return 0, zzv.Err("broken pipe")
-	}
 	if w.status == 0 {
 		w.WriteHeader(http.StatusOK)
+	}
+	if w.failAfter >= 0 && len(w.body)+len(p) > w.failAfter {
+		n := w.failAfter - len(w.body)
+		w.body = append(w.body, p[:n]...)
+		w.broken = true
+		return n, zzv.Err("write: broken pipe")
 	}
 	n := len(p)
 	if w.shortWrites > 0 && n > 1 {
@@ -208,8 +228,8 @@ func VProxy(mode int) {
 	route := zzv.Choose("route", 3)
 	assigned := zzv.Choose("assigned", 2) == 1
 	tg := &vTarget{status: 200, ctype: "text/plain; version=0.0.4", gzipped: mode == 1}
-	body := &vBody{data: vPayload, failAt: -1}
-	w := &vWriter{header: http.Header{}}
+	body := &vBody{data: vPayload, failOff: -1}
+	w := &vWriter{header: http.Header{}, failAfter: -1}
 	stop := ""
 	if route == 0 {
 		tg.ctype = zzv.Str("ctype", "text/plain; version=0.0.4", "application/openmetrics-text")
@@ -238,16 +258,29 @@ func VProxy(mode int) {
 			if c2 > c1 && c2 < n {
 				body.cuts = append(body.cuts, c2)
 			}
-			body.failAt = zzv.Choose("failAt", 5) - 1
+			// the body breaks off after 0, 13, 30 or all 51 bytes (then instead of EOF), or never
+			switch zzv.Choose("failOff", 5) {
+			case 1:
+				body.failOff = 0
+			case 2:
+				body.failOff = 13
+			case 3:
+				body.failOff = 30
+			case 4:
+				body.failOff = n
+			}
+			if body.failOff >= 0 {
+				body.reset = zzv.Choose("fail.reset", 2) == 1
+			}
 			body.eofWith = zzv.Choose("eofWith", 2) == 1
 			if zzv.Choose("emptybody", 2) == 1 {
 				body.data = ""
 			}
 			switch zzv.Choose("prom", 4) {
 			case 1:
-				w.writeFailAt = 1
+				w.failAfter = 0
 			case 2:
-				w.writeFailAt = 2
+				w.failAfter = 20
 			case 3:
 				w.shortWrites = 2
 			}
@@ -298,16 +331,22 @@ func VProxy(mode int) {
 	// a handler that returns normally has produced a complete response: the committed status,
 	// or an implicit 200 if it never wrote anything
 	complete200 := !aborted && (w.status == 200 || w.status == 0)
+	if attempted && stop != "" {
+		zzv.Cover("proxy.stopped")
+	}
 	if attempted {
 		zzv.Cover("proxy.attempted")
 		if !realOK {
 			zzv.Cover("proxy.failed")
 			// F1: a failure after the first forwarded byte leaves Prometheus with a complete 200
 			zzv.Finding("C13-F1", w.status == 200 && len(w.body) > 0 && stop == "")
+			// F2: the parser library treats "connection reset by peer" as a clean end of stream
+			zzv.Finding("C13-F2", body.failed && body.reset)
 			zzv.Assert("C13.failed.not200", !complete200)
 			if st != nil {
+				zzv.Finding("C13-F2", body.failed && body.reset)
 				zzv.Assert("C13.failed.health", st.Health == pscrape.HealthBad && st.LastError != "")
-				if stop == "" {
+				if stop == "" && !(body.failed && body.reset) {
 					// (an administratively stopped scrape still reads the target; whether its counts
 					// enter the window is not fixed by the property, so it is not asserted)
 					zzv.Assert("C14.failed.keeps.series", st.Series == st0.Series && st.TotalSeries == st0.TotalSeries)
